@@ -4,6 +4,8 @@
 mod c0809;
 mod c12;
 mod c13;
+mod c23;
+mod c28;
 mod tool_emit;
 mod util;
 
@@ -16,6 +18,8 @@ fn main() {
         "C08" | "C09" => c0809::main(args),
         "C12" => c12::main(args),
         "C13" => c13::main(args),
+        "C23" => c23::main(args),
+        "C28" => c28::main(args),
         "TOOL_EMIT" => tool_emit::main(args),
         p => {
             eprintln!("mon_text: unknown property {p}");
